@@ -28,7 +28,8 @@ def run(ctx):
         I("small", 1, "TC12", st="uint16_t", alloc="std", L=3, reloc=r, opts=few),  # claims (12-byte element in the pointer slot)
     ]
     if not q:
-        vm += [I("small", 2, "TC4", K=2, L=3, reloc=r, opts=few + ["--no-ctors"]), I("vector", 0, "TR", alloc="ledgerrealloc", K=2, L=2, reloc=r, opts=few),
+        # (K=2 L=3 with a relocation after every operation does not finish in 45 minutes since the key distinguishes zero)
+        vm += [I("small", 2, "TC4", K=2, L=2, reloc=r, opts=few + ["--no-ctors"]), I("vector", 0, "TR", alloc="ledgerrealloc", K=2, L=2, reloc=r, opts=few),
                I("small", 5, "TC1", st="int16_t", L=6, reloc=r, opts=few + ["--no-alias", "--no-ctors"]), I("small", 1, "TC12", st="uint16_t", alloc="std", L=3, reloc=r)]
     cov = e1.explore(ctx, vm, ["C14"], any_fail_counts=True, only_claiming=True)
     S = e2.inst
